@@ -502,7 +502,10 @@ class CIMachine(FormatMachine):
             CTX.fault("F5.refused_api_call")
             self.count("C11", ["add-refused", why, len(before)])
             if expect == "ok":
-                raise Violation("C11", "C11.valid_add_accepted", "valid-add-refused/%s" % exc_class(raised),
+                # C06's converse ("every object whose fields all satisfy their documented rules is written without
+                # error") cannot hold for an object that cannot even be assembled: in a C06 run it is reported there
+                P = "C06" if self.cfg.get("focus") == "C06" else "C11"
+                raise Violation(P, "%s.valid_add_accepted" % P, "valid-add-refused/%s" % exc_class(raised),
                                 {"error": exc_class(raised), "msg": str(raised)[:160]})
             if expect == "fail" and not isinstance(raised, (ValueError, TypeError)):
                 raise Violation("C11", "C11.refusal_exception_type", "exctype/%s/%s" % (why, exc_class(raised)),
